@@ -99,6 +99,7 @@ inductive Err
   | reader          -- FortranReader raised
   | decode          -- the file could not be decoded
   | reported        -- (repaired variant) something was reported, file skipped at the end
+  | enumValue       -- ValueError of FortranEnum._cleanup: "Non-integer (...) assigned to enumerator"
   deriving DecidableEq, Repr
 
 /-- what print_error does; `skipReported` is the candidate repair (a file that
